@@ -98,4 +98,15 @@ def invCipherMat (T : Tables) (w : List Mat) (st : Mat) : Mat :=
 def invCipher (T : Tables) (key block : List UInt8) : List UInt8 :=
   transpose (invCipherMat T (keyExpansion T key) (transpose block))
 
+/-! ### the object: `AES(key)` / `setKey` fill the round keys `w`, `cipher` / `invcipher` only read them -/
+
+structure Obj where
+  w : List Mat
+
+/-- `AES::AES(key)` with a non-null key, and `setKey(key)` on any object: all 11 round keys are overwritten -/
+def Obj.setKey (T : Tables) (_o : Obj) (key : List UInt8) : Obj := ⟨keyExpansion T key⟩
+def Obj.new (T : Tables) (key : List UInt8) : Obj := ⟨keyExpansion T key⟩
+def Obj.cipher (T : Tables) (o : Obj) (block : List UInt8) : List UInt8 := transpose (cipherMat T o.w (transpose block))
+def Obj.invCipher (T : Tables) (o : Obj) (block : List UInt8) : List UInt8 := transpose (invCipherMat T o.w (transpose block))
+
 end Tbox.C19.Aes
